@@ -24,7 +24,10 @@ func init() {
 			{Name: "delete-kind-case", File: "pkg/cmp/cmp.go", Old: "\tcase pref.StringKind:\n\t\treturn x.String() == y.String()\n", New: "", Expect: "R16.1"},
 			{Name: "uint-compared-as-int", File: "pkg/cmp/cmp.go", Old: "\t\treturn x.Uint() == y.Uint()", New: "\t\treturn x.Int() == y.Int()", Expect: "R16.1"},
 			{Name: "change-time-anywhere", File: "pkg/cmp/cmp.go", Old: "case fd.Name() == \"change_time\" && fd.ContainingMessage().Name() == \"Change\":", New: "case fd.Name() == \"change_time\":", Expect: "R16.1"},
-			{Name: "missing-field-equal", File: "pkg/cmp/cmp.go", Old: "\t\tequal = my.Has(fd) && eq.equalField(fd, vx, vy)\n\t\treturn equal\n\t})\n\tif !equal {", New: "\t\tequal = eq.equalField(fd, vx, vy)\n\t\treturn equal\n\t})\n\tif !equal {", Expect: "R16.1"},
+			{Name: "missing-field-equal", File: "pkg/cmp/cmp.go", Old: "\t\tcase my.Has(fd):\n\t\t\tequal = eq.equalField(fd, vx, vy)\n\t\tcase eq.zeroComparable(fd):", New: "\t\tcase true:\n\t\t\tequal = eq.equalField(fd, vx, vy)\n\t\tcase eq.zeroComparable(fd):", Expect: "R16.1"},
+			{Name: "revert-F42-zero-never-within-tolerance", File: "pkg/cmp/cmp.go", Old: "\t\tcase eq.zeroComparable(fd):\n\t\t\t// y holds the zero value, a value comparer may still accept the pair (0 is within 0.5 of 0.3)\n\t\t\tequal = eq.equalValue(fd, vx, vy)\n", New: "", Expect: "R16.1"},
+			{Name: "zero-comparable-without-comparer", File: "pkg/cmp/cmp.go", Old: "\treturn eq.cmpValue != nil && !fd.HasPresence() && !fd.IsList() && !fd.IsMap()", New: "\treturn !fd.HasPresence() && !fd.IsList() && !fd.IsMap()", Expect: "R16.1"},
+			{Name: "second-pass-ignores-fields-only-y-has", File: "pkg/cmp/cmp.go", Old: "\t\tcase eq.zeroComparable(fd):\n\t\t\tequal = eq.equalValue(fd, mx.Get(fd), vy)\n\t\tdefault:\n\t\t\tequal = false\n", New: "\t\tcase eq.zeroComparable(fd):\n\t\t\tequal = eq.equalValue(fd, mx.Get(fd), vy)\n\t\tdefault:\n", Expect: "R16.1"},
 			{Name: "ok-for-foreign-kinds", File: "pkg/cmp/number.go", Old: "\t\t\treturn false, false", New: "\t\t\treturn false, true", Expect: "R16.2"},
 			{Name: "time-drop-before-branch", File: "pkg/cmp/time.go", Old: "\t\tif xt.Before(yt) {\n\t\t\treturn yt.Sub(xt) <= d, true\n\t\t}\n\t\treturn xt.Sub(yt) <= d, true", New: "\t\treturn xt.Sub(yt) <= d, true", Expect: "R16.3"},
 			{Name: "float-asymmetric-margin", File: "pkg/cmp/number.go", Old: "relMarg := fraction * math.Min(math.Abs(fx), math.Abs(fy))", New: "relMarg := fraction * math.Abs(fx)", Expect: "R16.3"},
@@ -44,6 +47,7 @@ const cmpPkg = "pkg/cmp"
 func runC16(c *an.Ctx) {
 	r161(c)
 	r161unknown(c)
+	r165writeSide(c)
 	r162and3(c)
 	r164(c)
 	r045as(c, "R16.5")
@@ -286,61 +290,166 @@ func r161(c *an.Ctx) {
 			}
 		}
 		c.Check(okDesc, rule, name+"|different descriptors are unequal", fn.Pos(), "", "messages of different types are not rejected")
-		// first Range callback: equal = my.Has(fd) && equalField(...); return equal
-		okCb := false
-		for _, a := range an.AnonFuncsDeep(fn) {
-			has, field := false, false
-			an.Instrs(a, func(in ssa.Instruction) {
+		// The two passes over the populated fields, as decision tables of the Range callbacks:
+		//   ranging over x:  y has the field            -> equalField(fd, vx, y.Get(fd))
+		//                    y lacks it, zero-comparable -> equalValue(fd, vx, y.Get(fd))   (y reads as the zero value)
+		//                    y lacks it otherwise        -> false
+		//   ranging over y:  x has the field            -> verdict unchanged (compared in the first pass)
+		//                    x lacks it, zero-comparable -> equalValue(fd, x.Get(fd), vy)
+		//                    x lacks it otherwise        -> false
+		// zero-comparable = a value comparer is configured and the field is singular without presence; with the default
+		// comparer a populated field never equals an unpopulated one (as in proto.Equal), with a tolerance comparer 0 is
+		// compared like any other value (0 is within 0.5 of 0.3).
+		type pass struct {
+			cb     *ssa.Function
+			ranged ssa.Value
+		}
+		var passes []pass
+		findPasses := func(f *ssa.Function) {
+			an.Instrs(f, func(in ssa.Instruction) {
+				call, ok := in.(*ssa.Call)
+				if !ok || !call.Call.IsInvoke() || call.Call.Method.Name() != "Range" || len(call.Call.Args) != 1 {
+					return
+				}
+				if cb := an.ClosureFn(call.Call.Args[0]); cb != nil && len(cb.Params) == 2 {
+					passes = append(passes, pass{cb, call.Call.Value})
+				}
+			})
+		}
+		findPasses(fn)
+		if len(passes) == 0 {
+			// the passes may live in helpers the rules have not seen (equalPopulated(mx, my) …), in call order
+			an.Instrs(fn, func(in ssa.Instruction) {
 				if call, ok := in.(*ssa.Call); ok {
-					if call.Call.IsInvoke() && call.Call.Method.Name() == "Has" {
-						has = true
-					}
-					if strings.HasSuffix(an.CalleeName(call), "equator).equalField") {
-						field = true
-						// only evaluated when Has is true
-						g := false
-						for _, e := range an.GuardingEdges(call) {
-							if hc, ok := e.If.Cond.(*ssa.Call); ok && hc.Call.IsInvoke() && hc.Call.Method.Name() == "Has" && e.Branch {
-								g = true
-							}
-						}
-						if !g {
-							has = false
-						}
+					if h := an.TransparentCallee(call); h != nil {
+						findPasses(h)
 					}
 				}
 			})
-			if has && field {
-				// the callback returns the verdict it stored (stops at the first difference)
-				for _, r := range an.Returns(a) {
-					for _, v := range an.Sources(r.Results[0]) {
-						if _, isPhi := v.(*ssa.Phi); isPhi {
-							okCb = true
-						}
-						if _, isC := v.(*ssa.Const); isC {
-							okCb = true
-						}
-						if _, isCall := v.(*ssa.Call); isCall {
-							okCb = true
+		}
+		rangedIs := func(v ssa.Value, p *ssa.Parameter) bool {
+			for _, s0 := range an.Sources(v) { // a helper's parameter resolves to what equalMessage passes
+				if s0 == ssa.Value(p) {
+					return true
+				}
+			}
+			return false
+		}
+		okPasses := len(passes) == 2 && len(fn.Params) == 3 && rangedIs(passes[0].ranged, fn.Params[1]) && rangedIs(passes[1].ranged, fn.Params[2])
+		if !okPasses {
+			c.Note("R16.1: equalMessage has %d Range passes, %d parameters", len(passes), len(fn.Params))
+		}
+		c.Check(okPasses, rule, name+"|the populated fields of both messages are visited", fn.Pos(), "x.Range then y.Range",
+			"equalMessage does not range over the populated fields of the first message and then of the second: fields only one side has populated go unnoticed")
+		for pi, ps := range passes {
+			if !okPasses {
+				break
+			}
+			names := map[ssa.Value]string{ps.cb.Params[0]: "fd", ps.cb.Params[1]: "v"}
+			for _, fv := range ps.cb.FreeVars {
+				t := fv.Type().String()
+				switch {
+				case strings.HasSuffix(t, "protoreflect.Message"):
+					names[fv] = "other"
+				case strings.HasSuffix(t, "cmp.equator"):
+					names[fv] = "eq"
+				case t == "*bool":
+					names[fv] = "equal"
+				}
+			}
+			leaves := an.DecisionTree(ps.cb, an.DTConfig{Names: names})
+			which := []string{"first pass (fields of x)", "second pass (fields of y)"}[pi]
+			okTable, why := len(leaves) > 0, ""
+			sawHas, sawZero, sawNo := false, false, false
+			for _, l := range leaves {
+				if l.Undec != "" || l.Panics || len(l.Returns) != 1 {
+					okTable, why = false, "table not extracted: "+l.Undec
+					break
+				}
+				has := l.Get("call other.Has(fd)")
+				notZero := l.Get("eq.cmpValue==nil") == "true" || l.Get("call fd.HasPresence()") == "true" || l.Get("call fd.IsList()") == "true" || l.Get("call fd.IsMap()") == "true"
+				zero := l.Get("eq.cmpValue==nil") == "false" && l.Get("call fd.HasPresence()") == "false" && l.Get("call fd.IsList()") == "false" && l.Get("call fd.IsMap()") == "false"
+				// what the path does, whatever the encoding of the verdict (an `equal` flag, a `mismatch` flag, early returns)
+				stored, storedConst := "", false
+				for _, r := range l.Recs {
+					if strings.HasPrefix(r.Callee, "store ") && len(r.Args) == 1 {
+						stored = r.Args[0].S
+						if r.Args[0].B != nil {
+							storedConst = true
 						}
 					}
 				}
+				ret := l.Returns[0].S
+				retFalse := l.Returns[0].B != nil && !*l.Returns[0].B
+				fieldCall, valueCall, otherCmp := "", "", false
+				wantValue := "equalValue(eq, fd, v, call other.Get(fd))"
+				if pi == 1 {
+					wantValue = "equalValue(eq, fd, call other.Get(fd), v)"
+				}
+				for _, cl := range l.Calls {
+					switch {
+					case strings.HasPrefix(cl, "store "):
+					case strings.HasSuffix(cl, "equalField(eq, fd, v, call other.Get(fd))"):
+						fieldCall = cl
+					case strings.HasSuffix(cl, wantValue):
+						valueCall = cl
+					case strings.Contains(cl, "equalField(") || strings.Contains(cl, "equalValue("):
+						otherCmp = true
+					}
+				}
+				fail := func(msg string) {
+					if okTable {
+						okTable, why = false, fmt.Sprintf("%s (path %v: calls %v, stores %q, returns %q)", msg, l.Assign, l.Calls, stored, ret)
+					}
+				}
+				// the comparison's result decides: the path branches on it (and the unequal branch fails), or hands it on
+				decides := func(call string) bool {
+					if v, branched := l.AssignM["call "+call]; branched {
+						return v == "true" || storedConst || retFalse
+					}
+					return strings.Contains(stored, call) || strings.Contains(ret, call)
+				}
+				switch {
+				case otherCmp:
+					fail("values are compared in the wrong order or with the wrong operands")
+				case has == "true" && pi == 0:
+					sawHas = true
+					if fieldCall == "" || valueCall != "" || !decides(fieldCall) {
+						fail("a field both messages have populated is not judged by equalField(fd, x's value, y's value)")
+					}
+				case has == "true" && pi == 1:
+					sawHas = true
+					if fieldCall != "" || valueCall != "" || storedConst || retFalse {
+						fail("a field compared in the first pass is judged again in the second")
+					}
+				case has == "false" && zero:
+					sawZero = true
+					if valueCall == "" || fieldCall != "" || !decides(valueCall) {
+						fail("a singular field without presence that only one side has populated is not compared with the other side's zero value through the value comparer (x's value first)")
+					}
+				case has == "false" && notZero:
+					sawNo = true
+					if fieldCall != "" || valueCall != "" || !(storedConst || retFalse) {
+						fail("a field only one side has populated (and that is not zero-comparable) does not make the messages unequal")
+					}
+				default:
+					fail("path not covered by the table (a comparison that does not depend on which side has the field populated, or an incomplete zero-comparable test)")
+				}
 			}
+			if okTable && !(sawHas && sawZero && sawNo) {
+				okTable, why = false, fmt.Sprintf("rows missing (both populated: %v, zero-comparable: %v, one side only: %v)", sawHas, sawZero, sawNo)
+			}
+			c.SawFunc(an.FuncName(ps.cb))
+			c.Check(okTable, rule, name+"|"+which+": populated on both sides, zero-comparable, or unequal", ps.cb.Pos(), fmt.Sprintf("%d paths", len(leaves)),
+				"the per-field verdict of the "+which+" is not the specified table: "+why+". With the default comparer a populated field must never equal an unpopulated one (proto.Equal); with a value comparer the zero value of a field without presence is a value like any other (FloatValueApprox(0,1) accepts 0 and 0.5)")
 		}
-		c.Check(okCb, rule, name+"|a field must be set on both sides and compare equal", fn.Pos(), "", "the per-field verdict is not `other.Has(field) && equalField(...)`")
-		// field counts compared, unknown fields compared
-		okCount, okUnknown := false, false
+		okUnknown := false
 		an.Instrs(fn, func(in ssa.Instruction) {
 			if call, ok := in.(*ssa.Call); ok && strings.HasSuffix(an.CalleeName(call), "equator).equalUnknown") {
 				okUnknown = true
 			}
-			if iff, ok := in.(*ssa.If); ok {
-				if bo, ok := iff.Cond.(*ssa.BinOp); ok && (bo.Op == token.NEQ || bo.Op == token.EQL) && types.Identical(bo.X.Type(), types.Typ[types.Int]) {
-					okCount = true
-				}
-			}
 		})
-		c.Check(okCount && okUnknown, rule, name+"|field counts and unknown fields are compared", fn.Pos(), "", "fields only set on the second message, or unknown fields, are ignored")
+		c.Check(okUnknown, rule, name+"|unknown fields are compared", fn.Pos(), "", "unknown fields are ignored")
 	}
 	// compare: nil handling
 	if fn := mustFunc(c, rule, cmpPkg, "equator", "compare"); fn != nil {
@@ -817,6 +926,33 @@ func symmetricBound(c *an.Ctx, t ssa.Value, px, py *ssa.Parameter) string {
 	}
 	walk(t)
 	return bad
+}
+
+// r165writeSide: the configured equivalence is a statement about what ONE subscriber holds, so it is consulted only
+// where a subscription forwards events (Pull and the functions that belong to it) - never on the write path, where a
+// suppressed publication hides the write from every subscriber whatever each of them last saw.
+func r165writeSide(c *an.Ctx) {
+	const rule = "R16.5"
+	n := 0
+	for _, fn := range c.Prog.FuncsIn(resPkg) {
+		if c.Prog.IsGenerated(fn.Pos()) {
+			continue
+		}
+		for _, cl := range an.CallsIn(fn, func(s string) bool { return strings.HasSuffix(s, "pkg/resource.Comparer).Compare") }) {
+			n++
+			okOwner := true
+			var owner string
+			for _, o := range an.Owners(fn) {
+				if o.Name() != "Pull" && o.Name() != "PullID" {
+					okOwner, owner = false, an.FuncName(o)
+				}
+			}
+			c.SawFunc(an.FuncName(fn))
+			c.Check(okOwner, rule, an.FuncName(fn)+"|the equivalence is consulted per subscriber, not by the writer", cl.Pos(), "called from a Pull subscription",
+				"the configured equivalence is evaluated in "+owner+", outside a Pull subscription: a write whose new value is equivalent to the stored one is not published at all, so a run of small steps is never delivered (each step is within the tolerance of the previous stored value although the subscriber's value is far behind) and an updates-only subscriber, which holds nothing, misses the write")
+		}
+	}
+	c.Count("equivalence_calls", n)
 }
 
 func r164(c *an.Ctx) {
